@@ -145,13 +145,24 @@ def answer (toks : List String) : String :=
           match optRats attr with
           | none => []
           | some vs => [(attrName 1, vs), (attrName 2, vs.map fun v => -v / 2)]⟩
-      else match inp? with
+      else
+        -- subclass constructors: a = N, b = threshold, data = similarity / series / resistances
+        let q := (rats b).headD 0
+        let sub? : Option (Except Err Net) := match ctor with
+          | "climate" => some (climateInit d a.toNat! (ratFn (ratMat data)) q cl wt)
+          | "coupled" => some (coupledInit d a.toNat! (ratFn (ratMat data)) q cl wt)
+          | "recurrence" => some (recurrenceInit (rats data) q (optRats w))
+          | "res" => some (resInit a.toNat! (ratFn (ratMat data)) cl wt)
+          | _ => none
+        match (match sub? with
+               | some r => some r
+               | none => inp?.map fun inp =>
+                  -- SpatialNetwork / GeoNetwork take no weights: `net.node_weights = w` afterwards
+                  if cls == "geo" then geoInit d inp cl wt
+                  else if cls == "spatial" then init d inp none
+                  else init d inp (optRats w)) with
         | none => .error .indexError
-        | some inp =>
-          -- SpatialNetwork / GeoNetwork take no weights: `net.node_weights = w` afterwards
-          let r := if cls == "geo" then geoInit d inp cl wt
-                   else if cls == "spatial" then init d inp none
-                   else init d inp (optRats w)
+        | some r =>
           let r := if cls == "net" then r else match optRats w with
             | none => r
             | some ws => r.bind fun net => setWeights net (some ws)
